@@ -55,8 +55,11 @@ def cases(draw, tier):
             unit = draw(st.sampled_from([1.0, 1.0, 1.0, 1e-3, 1e-6, 1e3]))
             if isinstance(sc, dict) and sc["cls"].startswith("SecondMoment") and draw(st.integers(0, 2)) == 0:
                 unit = "level_9e9"  # readings of a 9.19 GHz standard: a huge level, which this user score depends on  # data in small / large units
-            if draw(st.integers(0, 7)) == 0:
+            narrow = draw(st.integers(0, 9))
+            if narrow == 0:
                 unit = "int16"  # rail-to-rail readings of a 16-bit converter, handed over as an int16 array
+            elif narrow == 1:
+                unit = "float32"  # single-precision readings on a level of 1000 (air pressure in hPa)
     mil = D.weighted(draw, [(2, st.just(2 * msl)), (6, st.integers(2 * msl, 2 * msl + 40)), (1, st.just(200))])
     scale = draw(st.sampled_from([0.0, 0.2, 0.5, 1.0, 2.0, None]))
     if isinstance(sc, dict) and sc["cls"] in ("TableChangeScore", "FunctionChangeScore") and scale is not None:
@@ -79,6 +82,10 @@ def cases(draw, tier):
         if unit == "int16":
             X = [[float(max(-32768, min(32767, round(v * 3000)))) for v in row] for row in X]
             case["as_int16"] = True
+            case["n_train"], case["history"] = None, None
+        elif unit == "float32":
+            X = [[float(np.float32(v + 1000.0)) for v in row] for row in X]  # the numbers a float32 array holds
+            case["as_float32"] = True
             case["n_train"], case["history"] = None, None
         elif unit == "level_9e9":
             X = [[v + 9.19e9 for v in row] for row in X]
@@ -114,6 +121,8 @@ def check(case):
         Xtrain = Xtrain.copy()
         Xpred = Xtrain
     history = case.get("history") if case.get("n_train") != "same_buffer" else None
+    if case.get("as_float32"):
+        Xtrain = Xpred = X.astype(np.float32)
     if case.get("as_int16"):
         Xtrain = Xpred = X.astype(np.int16)  # the detector gets the narrow integers, the reference model the same numbers as floats
     with sut("SeededBinarySegmentation.fit/predict"):
@@ -209,6 +218,8 @@ def check(case):
         classes.append(f"history={history}")
     if case.get("as_int16"):
         classes.append("int16_full_range")
+    if case.get("as_float32"):
+        classes.append("float32_on_a_level")
     if mil == 2 * msl:
         classes.append("mil=2msl")
     if n == 2 * msl:
